@@ -46,6 +46,14 @@ CHECKS = {
    text="CJsonValues.tla defines abstract JSON values over character / number classes, C10's verdict rule (integers exact, non-integers rejected) and a token-stream acceptor (structure, loss-freedom, JSON-valid escape spellings, no whitespace). TLC enumerates value shapes, checks an order-free canonical writer against the acceptor and emits each value. The harness instantiates classes, writes each value in four textual spellings, runs Json::canonicalize, tokenises the output independently and TLC validates one trace event per value against Trace_CJson.tla (verdict allowed, spelling-independent, members sorted by code point, parse-back identical, integers exact, token stream renders the value). Every Unicode scalar value is exercised as member name and content (strided in quick, all in thorough).",
    note="Trusted: TLC, serde_json as JSON parser, the harness tokeniser. Class-based for characters and numbers (boundary integers exact); nesting <= 2, <= 2 members.",
    tech="TLA+ spec CJsonValues.tla (acceptor) + TLC enumeration; impl->spec trace validation of tokenised canonical output (Trace_CJson.tla)"),
+ "C09": dict(cat="model_checking", ref="§4 C09, §3.2",
+   text="Lifecycle.tla models the life of a signed block (construct with the direct constructor or the builder, write compact / pretty, read, optional edit, optional signature mutation, verify with a chosen key set and threshold); the expected verdict is derived from the abstract state by the C04 requirement, and TLC proves UntouchedVerifies / EditInvalidates / NoForeignKey over every path. Every path is executed on real layouts and links for several key types with content strings from all character classes in every string-bearing field; every bit of an ed25519 signature (a sample for ECDSA / RSA-PSS) is flipped.",
+   note="Trusted: TLC, ring. Class-based strings (members by seed); 1..3 signers; 'same material under a different scheme' built with PublicKey::from_spki.",
+   tech="TLA+ spec Lifecycle.tla model-checked with TLC; spec->impl replay of every path on real signed metadata"),
+ "C05": dict(cat="model_checking", ref="§4 C05, §3.2, §3.4",
+   text="MC_C05 combines Lifecycle.tla (invariant EditInvalidates: after any edit of the signed part the signatures no longer verify) with CJson.tla (the signed-bytes string encoding is injective, proved by TLC on all strings up to the bound; MC_C11 proves it for all 11 classes). TLC enumerates every single-field edit of a rich link (23 fields) and layout (28 fields) and every ordered pair of distinct near-collision strings; each scenario is executed on documents really signed by the library: after the edit verification with the signers' keys must fail and the canonical bytes must differ.",
+   note="Trusted: TLC, ring, serde_json. Pairs of documents are generated by single edits and bounded string pairs, not all pairs of documents.",
+   tech="TLA+ specs Lifecycle.tla + CJson.tla checked with TLC; spec->impl replay of every edit scenario through Metablock::verify"),
  "C03": dict(cat="model_checking", ref="§4 C03, §3.3",
    text="Rules.tla transcribes the in-toto specification's artifact-rule algorithm (functional form and a state machine with one Apply step per rule; TLC checks that both agree, that the queue only shrinks and that a rule only consumes artifacts its pattern / source prefix matches). TLC enumerates rule lists x item link states x referenced-step states; every scenario is run through the real rule engine and the verdict must equal the specification's; seeded random scenarios beyond the bounds (up to 4+4 rules, 6 paths, nested prefixes) are validated step by step (consumed set and remaining queue after every rule, hook in rulelib.rs) against Trace_Rules.tla.",
    note="Trusted: TLC, glob::Pattern (default options) as fnmatch, the harness builders. Inputs restricted to C03's own quantifier: normalised relative paths, portable glob syntax; '[' only in DISALLOW. Bounds: 3 paths, 57-rule alphabet, rule lists <= 2 in TLC (<= 4+4 in traces).",
